@@ -239,7 +239,7 @@ class FsMethods(
 
 
 def _read_file(path):
-    with open(path) as f:
+    with open(path, errors='replace') as f:
         return f.read()
 
 
